@@ -176,7 +176,7 @@ static Outcome AbsentMembersLeg(RunCtx& ctx, int archive)
 		if (name == "imap" && docZ.skipIntKeyMaps) continue;
 		const std::string& b = before.at(name);
 		const std::string& a2 = after.at(name);
-		const bool resettable = name == "opt" || name == "optStr" || name == "uptr" || name == "sptr" || name == "uobj";
+		const bool resettable = name == "opt" || name == "optStr" || name == "uptr" || name == "sptr" || name == "uobj" || name == "optDur" || name == "uDur";
 		if (a2 == b) continue;
 		if (resettable && a2 == "null") continue;
 		return Violation("WRONG_VALUE", tags + " what=absent_changed member=" + name, "member '" + name + "' is absent from the document but the target changed: before=" + b.substr(0, 120) + " after=" + a2.substr(0, 120));
